@@ -32,8 +32,8 @@ TRUSTED = [
     'Common.PyInt.slice_indices models CPython slice.indices (tied by C20 exhaustive stream)',
 ]
 ASSUMPTIONS = [
-    'view domain for statistics: None or tuples of positive-step slices, possibly shorter than ndim, selecting at least one element on every axis '
-    '(numpy itself has no statistic of a zero-size lane); scalar view entries reach compute_statistic only through IndexedData (C04)',
+    'view domain for statistics: None or tuples, possibly shorter than ndim, of positive-step slices and in-range integers (the axis argument then refers to '
+    'the viewed array), selecting at least one element on every axis (numpy itself has no statistic of a zero-size lane)',
     'finite=False: lanes whose kept values contain NaN are not compared (NaN-aware vs NaN-propagating is not fixed by the statement)',
     'a data value exactly on an interior bin edge may be counted in either adjacent bin (the statement does not fix which side of a bin is open); '
     'values equal to the range ends must be counted (first / last bin)',
@@ -57,6 +57,10 @@ def val_dec(v):
         return INF
     if v == '-inf':
         return -INF
+    if isinstance(v, str):
+        # 'm@e' = m * 2**e : exactly representable values across magnitudes
+        m, e = v.split('@')
+        return float(int(m)) * 2.0 ** int(e)
     return v / 4.0
 
 
@@ -66,6 +70,15 @@ def val_pool():
 
 def sl(t):
     return slice(*t)
+
+
+def vent(e):
+    """a view entry: an integer or a slice given as [start, stop, step]"""
+    return e if isinstance(e, int) else slice(*e)
+
+
+def vent_enc(e):
+    return (1, [e]) if isinstance(e, int) else sl_enc(e)
 
 
 def sl_enc(s):
@@ -264,7 +277,7 @@ def make_data(c):
 
 
 def view_of(c):
-    return None if c['view'] is None else tuple(sl(t) for t in c['view'])
+    return None if c['view'] is None else tuple(vent(t) for t in c['view'])
 
 
 def axis_of(c):
@@ -293,7 +306,7 @@ def model_line_stat(c, x, mask):
         keep &= np.isfinite(x)
     if c['positive']:
         keep &= x > 0
-    view = (0, []) if c['view'] is None else (1, [sl_enc(t) for t in c['view']])
+    view = (0, []) if c['view'] is None else (1, [vent_enc(t) for t in c['view']])
     if c['sel'] is None:
         selt = (0, [])
     elif c['sel'][0] == 'slice':
@@ -313,7 +326,7 @@ def check_stat(R, c, impl, mout, x, mask, count=True):
         chunked = (c['view'] is None and isinstance(c['axis'], list) and len(c['axis']) > 0 and len(c['axis']) == len(c['shape']) - 1
                    and int(np.prod(c['shape'])) > c['ncm'] and sel_kind(c['sel']) != 'slice')
         R.count(case_key(c), nontrivial=nontrivial, stream=c['stream'], sel=sel_kind(c['sel']), ndim=len(c['shape']),
-                view=('none' if c['view'] is None else 'strided' if any(t[2] not in (None, 1) for t in c['view']) else 'short' if len(c['view']) < len(c['shape']) else 'full'),
+                view=view_class(c),
                 axis=('none' if c['axis'] is None else 'int' if isinstance(c['axis'], int) else 'tuple%d' % len(c['axis'])),
                 stat=c['stat'], chunked=chunked, filters='%s%s' % ('F' if c['finite'] else '-', 'P' if c['positive'] else '-'))
     bad = None
@@ -358,7 +371,19 @@ VIEW_ALPHABET = [[None, None, None], [1, None, None], [0, None, 2], [1, 3, None]
 def nonempty_view(shape, view):
     if view is None:
         return True
-    return 0 not in np.broadcast_to(0, shape)[tuple(sl(t) for t in view)].shape
+    return 0 not in np.broadcast_to(0, shape)[tuple(vent(t) for t in view)].shape
+
+
+def view_class(c):
+    v = c['view']
+    if v is None:
+        return 'none'
+    k = 'int+' if any(isinstance(t, int) for t in v) else ''
+    if any(not isinstance(t, int) and t[2] not in (None, 1) for t in v):
+        return k + 'strided'
+    if any(not isinstance(t, int) and t[0] not in (None, 0) for t in v):
+        return k + 'offset'
+    return k + ('short' if len(v) < len(c['shape']) else 'full')
 
 
 def all_axes(nd):
@@ -390,6 +415,10 @@ def stream_stat_exhaustive(R):
     G.load()
     sizes = R.pick([1, 2, 3], [1, 2, 3])
     shapes = [sh for nd in (1, 2, 3) for sh in itertools.product(sizes, repeat=nd)]
+    if R.quick():
+        # every other 3-d shape in the quick tier (all of them in the thorough tier)
+        shapes = [sh for k, sh in enumerate(shapes) if len(sh) < 3 or k % 2 == 0]
+    n3 = len(shapes)
     shapes += R.pick([(2, 1, 2, 2), (1, 3, 2, 2)], [(2, 1, 2, 2), (1, 3, 2, 2), (2, 2, 2, 2), (3, 2, 1, 2), (2, 2, 3, 2)])
     pool = val_pool()
     cases, lines, ctx = [], [], []
@@ -435,7 +464,7 @@ def stream_stat_exhaustive(R):
     R.stream('stat_exhaustive', cases=len(cases), exhaustive=True,
              bound='shapes: all of 1..3 dims over sizes %s + %d 4-d shapes; 12 selections per shape (all kinds); views: None + all tuples over '
                    '{[:],[1:],[0::2],[1:3]} of length <= min(ndim,%d) that select something; every axis argument (None, each int, every subset); '
-                   'n_chunk_max = every value 1..size whenever the chunk loop is reachable; statistic/filters rotate' % (sizes, len(shapes) - 39, R.pick(2, 3)))
+                   'n_chunk_max = every value 1..size whenever the chunk loop is reachable; statistic/filters rotate; quick tier: every other 3-d shape' % (sizes, len(shapes) - n3, R.pick(2, 3)))
 
 
 def rand_case(R, i):
@@ -477,6 +506,110 @@ def rand_case(R, i):
             'pct': rng.choice([0, 25, 50, 75, 100, 30, 90]) if stat == 'percentile' else None,
             'finite': rng.random() < .8, 'positive': rng.random() < .25,
             'ncm': rng.choice([40000000, 1, 2, 3, 4, 5, 7, 8, 13, 24])}
+
+
+def intview_case(R, i):
+    """views mixing integers and slices with explicit starts on non-cubic shapes (dimension lengths all different, so that
+    clipping a start against the wrong dimension shows), with a selection and an axis of the viewed array"""
+    rng = R.subrng('intview', i)
+    nd = rng.choice([2, 3, 3, 3, 4])
+    while True:
+        shape = rng.sample([2, 3, 4, 5, 7, 9, 12], nd)
+        if int(np.prod(shape)) <= 260:
+            break
+    n = int(np.prod(shape))
+    pool = val_pool()
+    for _ in range(50):
+        ln = rng.randrange(1, nd + 1)
+        view = []
+        for s in shape[:ln]:
+            k = rng.random()
+            if k < .4:
+                view.append(rng.randrange(-s, s))
+            else:
+                a = rng.choice([None, rng.randrange(0, s), rng.randrange(0, s), rng.randrange(-s, 0)])
+                lo = 0 if a is None else a % s
+                b = rng.choice([None, rng.randrange(lo + 1, s + 1), rng.randrange(lo + 1, s + 3), -1 if lo + 1 < s else None])
+                view.append([a, b, rng.choice([None, None, None, 1, 1, 2])])
+        if not any(isinstance(e, int) for e in view):
+            pidx = rng.randrange(ln)
+            view[pidx] = rng.randrange(-shape[pidx], shape[pidx])
+        if any(isinstance(e, int) for e in view) and nonempty_view(shape, view):
+            break
+    else:
+        view = [0]
+    vnd = nd - sum(1 for e in view if isinstance(e, int))
+    k = rng.random()
+    if k < .45:
+        # a box-shaped selection: its bounding box is a proper sub-array
+        m = np.zeros(shape, dtype=bool)
+        box = []
+        for s in shape:
+            a = rng.randrange(0, s)
+            box.append(slice(a, rng.randrange(a + 1, s + 1)))
+        m[tuple(box)] = True
+        if rng.random() < .3:
+            m &= np.array([rng.random() < .7 for _ in range(n)]).reshape(shape)
+        sel = ['mask', m.astype(int).ravel().tolist()]
+    else:
+        sel = rand_sel(rng, shape)
+        if sel is None:
+            sel = ['ineq', rng.randrange(0, 5)]
+    axk = rng.choice(['none', 'int', 'tuple', 'tuple', 'all'])
+    if vnd == 0:
+        axis = rng.choice([None, []])
+    elif axk == 'none':
+        axis = None
+    elif axk == 'int':
+        axis = rng.randrange(vnd)
+    elif axk == 'all':
+        axis = list(range(vnd))
+    else:
+        axis = sorted(rng.sample(range(vnd), rng.randrange(0, vnd + 1)))
+    stat = rng.choice(STATS)
+    return {'stream': 'stat_intviews', 'sub': i, 'shape': shape, 'values': [rng.choice(pool) for _ in range(n)],
+            'y': [rng.randrange(0, 6) for _ in range(n)], 'sel': sel, 'view': view, 'axis': axis, 'stat': stat,
+            'pct': rng.choice([0, 25, 50, 75, 100, 30]) if stat == 'percentile' else None,
+            'finite': rng.random() < .85, 'positive': rng.random() < .15, 'ncm': rng.choice([40000000, 40000000, 7, 24])}
+
+
+def stream_stat_intviews(R):
+    G.load()
+    N = R.pick(5000, 40000)
+    # the shape of the seeded change C10-1 and close relatives first, then the random ones
+    fixed = []
+    for shape, view, ax in [([3, 12, 4], [1, [6, 11, None]], None), ([3, 12, 4], [1, [6, 11, None]], [0]), ([3, 12, 4], [2, [5, 12, None], [0, 3, None]], [1]),
+                            ([3, 12, 4], [-1, [-4, None, None]], None), ([2, 9, 5], [[1, 2, None], 7, [3, None, None]], [0]),
+                            ([4, 2, 7], [3, 1, [4, 7, None]], None), ([2, 5, 3, 7], [1, [3, 5, None], 2, [4, None, None]], [1])]:
+        n = int(np.prod(shape))
+        y = np.zeros(shape, dtype=int)
+        y[tuple(slice(s // 2, s) for s in shape)] = 5
+        fixed.append({'stream': 'stat_intviews', 'sub': -1, 'shape': shape, 'values': [(k % 25) - 8 for k in range(n)], 'y': y.ravel().tolist(),
+                      'sel': ['ineq', 2], 'view': view, 'axis': ax, 'stat': 'sum', 'pct': None, 'finite': True, 'positive': False, 'ncm': 40000000})
+    cases = fixed + [intview_case(R, i) for i in range(N)]
+    ctx, lines = [], []
+    for c in cases:
+        d, x, y = make_data(c)
+        mask = None if c['sel'] is None else ref_mask(c['sel'], tuple(c['shape']), y)
+        ctx.append((d, x, mask))
+        lines.append(model_line_stat(c, x, mask))
+    mouts = R.model(lines)
+    shrunk = 0
+    for c, (d, x, mask), mo in zip(cases, ctx, mouts):
+        impl = run_impl_stat(c, d)
+        nfail = len(R.failures)
+        bad = check_stat(R, c, impl, mo, x, mask)
+        if bad is not None and shrunk < 3:
+            shrunk += 1
+            small = shrink_stat(R, c)
+            for f in R.failures[nfail:]:
+                if f['kind'] == 'oracle':
+                    f['case'] = small
+    R.sample(cases[0])
+    R.stream('stat_intviews', cases=len(cases), exhaustive=False,
+             bound='2..4-d shapes with pairwise different lengths from {2,3,4,5,7,9,12} (<= 260 cells); views of length 1..ndim with at least one integer '
+                   '(negative allowed) mixed with slices that have explicit (also negative) starts/stops, sometimes a step; box-shaped masks and all other '
+                   'selection kinds; axis arguments of the viewed array; 7 fixed cases around shape (3,12,4), view (1, slice(6,11))')
 
 
 def shrink_stat(R, c):
@@ -737,7 +870,7 @@ def check_hist(R, c, impl, mo, count=True):
         else:
             ok, first = hist_expected_ok(c, impl[1])
             if not ok:
-                bad = {'histogram': impl[1].tolist(), 'expected(one admissible)': [[float(v) for v in row] if isinstance(row, np.ndarray) else float(row) for row in first.tolist()]}
+                bad = {'histogram': impl[1].tolist(), 'expected(one admissible)': np.asarray(first, dtype=float).tolist()}
         if bad is not None:
             R.fail('oracle', c, bad, key=None)
     if count:
@@ -879,6 +1012,53 @@ def stream_hist(R):
     R.stream('hist', exhaustive_cases=nexh, random_cases=N, model_cases=len(lines), exhaustive=False,
              bound='exhaustive: 15 ranges (reversed, point, ends on data values, interior edges on data values) x bins 1..7 x lin/log x weights x 3 selections '
                    'over a 20-point set with NaN/+-inf; random: 1..13 points, 1-d and 2-d (bins <= 4x4), ranges with dyadic ends, log per axis')
+
+
+def p2(m, e):
+    return str(Fraction(m) * Fraction(2) ** e)
+
+
+def stream_hist_magnitude(R):
+    """range ends that coincide with data values across magnitudes 2**-40 .. 2**48 (1e-12 .. 1e14), linear and log;
+    all values are m * 2**e with a small mantissa, so Fraction and float arithmetic agree exactly"""
+    cases = []
+    exps = R.pick([-40, -30, -20, -7, 0, 10, 20, 27, 30, 40], [-40, -34, -30, -27, -20, -14, -7, 0, 7, 10, 14, 20, 24, 27, 30, 34, 40])
+    k = 0
+    for e in exps:
+        for d in (1, 2, 3, 4, 6, 8):
+            xs = ['%d@%d' % (m, e + j) for j in range(-1, d + 2) for m in (1, 3, 5, 7)]
+            xs += ['1@%d' % (e + d)] * 2 + ['1@%d' % e, 'nan', 'inf', '-inf']
+            for n in range(1, 8):
+                for lg in (False, True):
+                    k += 1
+                    for (mlo, mhi) in ([(1, 1)] if lg else [(1, 1), (3, 5)]):
+                        rg = [p2(mlo, e), p2(mhi, e + d)]
+                        if k % 3 == 0:
+                            rg = rg[::-1]
+                        cases.append({'stream': 'hist_magnitude', 'x': xs, 'y': None, 'w': ([((i * 7) % 9) - 2 for i in range(len(xs))] if k % 4 == 0 else None),
+                                      'sel': ([int(i % 5 != 0) for i in range(len(xs))] if k % 2 == 0 else None), 'range': [rg], 'bins': [n], 'log': [lg]})
+    # 2-d: ordinary x, y across magnitudes, log on y
+    for e in exps:
+        for d in (2, 4):
+            ys = ['%d@%d' % (m, e + j) for j in range(0, d + 1) for m in (1, 3)] + ['1@%d' % (e + d), 'nan']
+            xs = [(i * 5) % 17 - 4 for i in range(len(ys))]
+            for lgy in (False, True):
+                cases.append({'stream': 'hist_magnitude', 'x': xs, 'y': ys, 'w': None, 'sel': None, 'range': [['-1', '3'], [p2(1, e), p2(1, e + d)]],
+                              'bins': [2, d], 'log': [False, lgy]})
+    lines, idx = [], []
+    for i, c in enumerate(cases):
+        ln = model_line_hist(c)
+        if ln is not None:
+            idx.append(i)
+            lines.append(ln)
+    mouts = dict(zip(idx, R.model(lines)))
+    for i, c in enumerate(cases):
+        impl = run_impl_hist(c)
+        check_hist(R, c, impl, mouts.get(i))
+    R.sample(cases[len(cases) // 2])
+    R.stream('hist_magnitude', cases=len(cases), model_cases=len(lines), exhaustive=True,
+             bound='lower end m*2**e, upper end m\'*2**(e+d) for e in %s, d in {1,2,3,4,6,8}; data = {1,3,5,7}*2**(e-1..e+d+1) plus both range ends (the upper one three '
+                   'times), NaN, +-inf; bins 1..7; linear and log; reversed ranges, weights and selections rotate; 2-d with the y axis across the same magnitudes' % (exps,))
 
 
 # ------------------------------------------------------------------ what the viewers plot
@@ -1024,7 +1204,9 @@ def run(R):
               '(statistics) or a non-zero bin (histograms); distinct = distinct canonical inputs')
     stream_stat_exhaustive(R)
     stream_stat_random(R)
+    stream_stat_intviews(R)
     stream_hist(R)
+    stream_hist_magnitude(R)
     stream_viewers(R)
     stream_malformed(R)
 
